@@ -867,6 +867,36 @@ fn odd_names(out: &mut Out) {
 		];
 		run_lines(&lines, out, true);
 	}
+	// names that differ only by case, by an ignorable-looking character or by a namespace-looking prefix are different
+	// names: each is bound (or not) on its own
+	let fams: [&[&str]; 4] = [
+		&["abc", "ABC", "Abc", "abc\u{200b}", "abc.", ".abc", "a_bc", "aBc"],
+		&["ns.m", "ns_m", "ns/m", "m", "NS.m", "ns.M", "ns..m"],
+		&["sub", "unsub", "Sub", "sub_", "un", "unsubscribe_sub"],
+		&["\u{e9}", "e\u{301}", "E\u{301}", "e"],
+	];
+	for (i, fam) in fams.iter().enumerate() {
+		let mut lines = vec![format!("case near{i} registry"), "R.new mod".to_string()];
+		for (k, n) in fam.iter().enumerate() {
+			if k % 2 == 0 {
+				lines.push(format!("R.reg 0 {n} {}", k + 1));
+			}
+			for m in fam.iter() {
+				lines.push(format!("R.call 0 {m}"));
+			}
+		}
+		lines.push(format!("R.alias 0 {} {}", fam[1], fam[0]));
+		lines.push(format!("R.remove 0 {}", fam[0]));
+		for m in fam.iter() {
+			lines.push(format!("R.call 0 {m}"));
+		}
+		lines.push(format!("R.regsub 0 {} {} 9", fam[3], fam[0]));
+		for m in fam.iter() {
+			lines.push(format!("R.call 0 {m}"));
+		}
+		lines.push("R.names 0".to_string());
+		run_lines(&lines, out, true);
+	}
 }
 
 fn main() {
